@@ -425,7 +425,21 @@ def include(state, included_file_path: str):
     from . import parser
     file_ast = parser.parse(include_path, code)
 
-    code = state["compiler"].compile_include(file_ast, state["emit_address"])
+    # A file that includes itself (directly or through other files) without '.once' would
+    # otherwise recurse until the interpreter's stack is exhausted
+    compiler = state["compiler"]
+    depth = getattr(compiler, "include_depth", 0)
+    if depth >= 32:
+        reports.error(
+            "recursive-include",
+            (state["insn"].ctx_start, state["insn"].ctx_end, f"Files are included more than {depth} levels deep. Does '{include_path}' include itself?\nUse '.once' to include a file only the first time.")
+        )
+        return b""
+    compiler.include_depth = depth + 1
+    try:
+        code = compiler.compile_include(file_ast, state["emit_address"])
+    finally:
+        compiler.include_depth = depth
 
     return code
 
